@@ -77,6 +77,19 @@ pub fn run_names(toks: &[&str]) -> String {
     out.join("\x1f")
 }
 
+// C10 / C08: idxrt <file with .symindex bytes>  ->  "OK <hex of parse(bytes).serialize_to_bytes()>" | "ERR <error variant>" | "PANIC"
+pub fn run_idxrt(toks: &[&str]) -> String {
+    let data = match std::fs::read(toks[0]) {
+        Ok(d) => d,
+        Err(_) => return "NOFILE".into(),
+    };
+    match catch_unwind(AssertUnwindSafe(|| BreakpadIndex::parse_symindex_file(&data[..]).map(|i| i.serialize_to_bytes()))) {
+        Err(_) => "PANIC".into(),
+        Ok(Err(e)) => format!("ERR {:?}", e).split('(').next().unwrap().to_string(),
+        Ok(Ok(b)) => format!("OK {}", b.iter().map(|x| format!("{:02x}", x)).collect::<String>()),
+    }
+}
+
 pub fn run_bpfuzz(toks: &[&str]) -> String {
     let data = std::fs::read(toks[0]).expect("sym file");
     let index = if toks[1] == "-" { None } else { Some(std::fs::read(toks[1]).expect("symindex file")) };
